@@ -29,6 +29,58 @@ let z_of_string (s : string) : z =
   String.iter (fun ch -> acc := Z.add (Z.mul !acc ten) (z_of_int (Char.code ch - 48))) ds;
   if neg then Z.opp !acc else !acc
 
+(* SHA-256 (the harness's hash function), so that the model can hash bodies it builds itself
+   (referrers indexes) and not only the bytes of the case's pool *)
+let sha256_hex (bytes : int list) : string =
+  let k = [|
+    0x428a2f98l;0x71374491l;0xb5c0fbcfl;0xe9b5dba5l;0x3956c25bl;0x59f111f1l;0x923f82a4l;0xab1c5ed5l;
+    0xd807aa98l;0x12835b01l;0x243185bel;0x550c7dc3l;0x72be5d74l;0x80deb1fel;0x9bdc06a7l;0xc19bf174l;
+    0xe49b69c1l;0xefbe4786l;0x0fc19dc6l;0x240ca1ccl;0x2de92c6fl;0x4a7484aal;0x5cb0a9dcl;0x76f988dal;
+    0x983e5152l;0xa831c66dl;0xb00327c8l;0xbf597fc7l;0xc6e00bf3l;0xd5a79147l;0x06ca6351l;0x14292967l;
+    0x27b70a85l;0x2e1b2138l;0x4d2c6dfcl;0x53380d13l;0x650a7354l;0x766a0abbl;0x81c2c92el;0x92722c85l;
+    0xa2bfe8a1l;0xa81a664bl;0xc24b8b70l;0xc76c51a3l;0xd192e819l;0xd6990624l;0xf40e3585l;0x106aa070l;
+    0x19a4c116l;0x1e376c08l;0x2748774cl;0x34b0bcb5l;0x391c0cb3l;0x4ed8aa4al;0x5b9cca4fl;0x682e6ff3l;
+    0x748f82eel;0x78a5636fl;0x84c87814l;0x8cc70208l;0x90befffal;0xa4506cebl;0xbef9a3f7l;0xc67178f2l |] in
+  let ( +% ) = Int32.add and ( ^% ) = Int32.logxor and ( &% ) = Int32.logand in
+  let rotr x n = Int32.logor (Int32.shift_right_logical x n) (Int32.shift_left x (32 - n)) in
+  let len = List.length bytes in
+  let padlen = let r = (len + 9) mod 64 in if r = 0 then 0 else 64 - r in
+  let total = len + 9 + padlen in
+  let msg = Bytes.make total '\000' in
+  List.iteri (fun i c -> Bytes.set msg i (Char.chr c)) bytes;
+  Bytes.set msg len '\128';
+  let bits = len * 8 in
+  for i = 0 to 7 do
+    Bytes.set msg (total - 1 - i) (Char.chr ((bits lsr (8 * i)) land 255))
+  done;
+  let h = [| 0x6a09e667l;0xbb67ae85l;0x3c6ef372l;0xa54ff53al;0x510e527fl;0x9b05688cl;0x1f83d9abl;0x5be0cd19l |] in
+  let w = Array.make 64 0l in
+  for blk = 0 to total / 64 - 1 do
+    for t = 0 to 15 do
+      let b i = Int32.of_int (Char.code (Bytes.get msg (blk * 64 + t * 4 + i))) in
+      w.(t) <- Int32.logor (Int32.shift_left (b 0) 24) (Int32.logor (Int32.shift_left (b 1) 16) (Int32.logor (Int32.shift_left (b 2) 8) (b 3)))
+    done;
+    for t = 16 to 63 do
+      let s0 = rotr w.(t-15) 7 ^% rotr w.(t-15) 18 ^% Int32.shift_right_logical w.(t-15) 3 in
+      let s1 = rotr w.(t-2) 17 ^% rotr w.(t-2) 19 ^% Int32.shift_right_logical w.(t-2) 10 in
+      w.(t) <- w.(t-16) +% s0 +% w.(t-7) +% s1
+    done;
+    let a = ref h.(0) and b = ref h.(1) and c = ref h.(2) and d = ref h.(3)
+    and e = ref h.(4) and f = ref h.(5) and g = ref h.(6) and hh = ref h.(7) in
+    for t = 0 to 63 do
+      let s1 = rotr !e 6 ^% rotr !e 11 ^% rotr !e 25 in
+      let ch = (!e &% !f) ^% (Int32.lognot !e &% !g) in
+      let t1 = !hh +% s1 +% ch +% k.(t) +% w.(t) in
+      let s0 = rotr !a 2 ^% rotr !a 13 ^% rotr !a 22 in
+      let maj = (!a &% !b) ^% (!a &% !c) ^% (!b &% !c) in
+      let t2 = s0 +% maj in
+      hh := !g; g := !f; f := !e; e := !d +% t1; d := !c; c := !b; b := !a; a := t1 +% t2
+    done;
+    h.(0) <- h.(0) +% !a; h.(1) <- h.(1) +% !b; h.(2) <- h.(2) +% !c; h.(3) <- h.(3) +% !d;
+    h.(4) <- h.(4) +% !e; h.(5) <- h.(5) +% !f; h.(6) <- h.(6) +% !g; h.(7) <- h.(7) +% !hh
+  done;
+  String.concat "" (Array.to_list (Array.map (fun x -> Printf.sprintf "%08lx" x) h))
+
 let hx = hex_of_str
 (* decimal printing of N without going through OCaml's 63-bit int *)
 let dec_double_plus (s : string) (carry0 : int) : string =
@@ -57,9 +109,16 @@ let show_ep e = match e with
   | EReferrers d -> "refs:" ^ hx d
 let show_meth m = match m with GET -> "GET" | HEAD -> "HEAD" | PUT -> "PUT" | POST -> "POST" | DELETE -> "DELETE"
 
+(* how requests are turned into URLs in the current case: PlainHTTP, registry host, ReferrerListPageSize;
+   printed as the first 12 hex digits of the SHA-256 of the URL *)
+let url_ctx : (bool * str * n) ref = ref (false, [], N0)
+let url_tag q =
+  let (plain, host, rp) = !url_ctx in
+  String.sub (sha256_hex (List.map int_of_n (request_url plain host rp q))) 0 12
+
 let show_req q =
-  Printf.sprintf "%s,%s,%s,dg=%s,mt=%s,ac=%s,ct=%s,cl=%s,rg=%s,b=%s"
-    (show_meth q.q_m) (hx q.q_repo) (show_ep q.q_ep) (show_ostr q.q_digest)
+  Printf.sprintf "%s,%s,%s,u=%s,dg=%s,mt=%s,ac=%s,ct=%s,cl=%s,rg=%s,b=%s"
+    (show_meth q.q_m) (hx q.q_repo) (show_ep q.q_ep) (url_tag q) (show_ostr q.q_digest)
     (show_opt (fun (d, f) -> hx d ^ "+" ^ hx f) q.q_mount)
     (show_ostr q.q_accept) (show_ostr q.q_ctype) (show_opt show_n q.q_clen)
     (show_opt (fun (a, b) -> show_n a ^ "-" ^ show_n b) q.q_range) (hx q.q_body)
@@ -138,6 +197,13 @@ let history toks =
     | Some i -> (try int_of_string (String.sub plain (i + 1) (String.length plain - i - 1)) with _ -> 0)
     | None -> 0 in
   let limit = eff_limit (n_of_int maxmeta) in
+  let skip_gc = String.length plain > 2 && plain.[1] = 'g' && plain.[2] = '1' in
+  let ref_page =
+    (* ...r<ReferrerListPageSize>t... *)
+    match String.index_opt plain 'r', String.index_opt plain 't' with
+    | Some i, Some j when j > i -> (try int_of_string (String.sub plain (i + 1) (j - i - 1)) with _ -> 0)
+    | _ -> 0 in
+  url_ctx := (String.length plain > 0 && plain.[0] = '1', str_of_hex "72656769737472792e6578616d706c65", n_of_int ref_page);
   let rst = match nexti () with 0 -> RSUnknown | 1 -> RSSupported | _ -> RSUnsupported in
   let nm = nexti () in
   let mts = List.init nm (fun _ -> str_of_hex (next ())) in
@@ -157,9 +223,33 @@ let history toks =
       | "-" -> Some None
       | s -> Some (Some (parse_desc_slash s)) in
     (c, d, sj)) in
-  let h (c : str) : str =
-    let r = ref (str_of_hex "7368613235363a756e6b6e6f776e") in
-    Array.iter (fun (c', d, _) -> if c' = c then r := d) pool; !r in
+  (* H = SHA-256 (checked against the digests the harness put into the pool) *)
+  let str_of_string (s : string) : str = List.init (String.length s) (fun i -> n_of_int (Char.code s.[i])) in
+  let h (c : str) : str = str_of_string ("sha256:" ^ sha256_hex (List.map int_of_n c)) in
+  Array.iter (fun (c', d, _) -> if h c' <> d then failwith "sha256 of a pool item differs") pool;
+  (* index_of: the referrers indexes the model itself generated (gen_index), otherwise the JSON
+     view of the pool (a decodable manifest without "manifests" decodes to the empty list) *)
+  let string_of_str (c : str) : string =
+    let b = Buffer.create 64 in List.iter (fun x -> Buffer.add_char b (Char.chr (int_of_n x))) c; Buffer.contents b in
+  let index_prefix = "{\"schemaVersion\":2,\"mediaType\":\"application/vnd.oci.image.index.v1+json\",\"manifests\":[" in
+  let entry_re = Str.regexp "{\"mediaType\":\"\\([^\"]*\\)\",\"digest\":\"\\([^\"]*\\)\",\"size\":\\([0-9]+\\)}" in
+  let index_of (c : str) : desc list option =
+    let txt = string_of_str c in
+    let pl = String.length index_prefix in
+    if String.length txt >= pl && String.sub txt 0 pl = index_prefix then begin
+      let out = ref [] and pos = ref pl in
+      (try
+        while true do
+          let _ = Str.search_forward entry_re txt !pos in
+          out := { d_mt = str_of_string (Str.matched_group 1 txt); d_dg = str_of_string (Str.matched_group 2 txt);
+                   d_sz = n_of_int (int_of_string (Str.matched_group 3 txt)) } :: !out;
+          pos := Str.match_end ()
+        done
+      with Not_found -> ());
+      Some (List.rev !out)
+    end else
+      let r = ref (Some []) in
+      Array.iter (fun (c', _, sj) -> if c' = c then r := (match sj with None -> None | Some _ -> Some [])) pool; !r in
   let subject_of (c : str) =
     let r = ref (Some None) in
     Array.iter (fun (c', _, sj) -> if c' = c then r := sj) pool; !r in
@@ -186,7 +276,7 @@ let history toks =
     | "bresolve" -> OBlobResolve (str_of_hex (next ()))
     | "bfetchref" -> OBlobFetchRef (str_of_hex (next ()))
     | x -> failwith ("op " ^ x)) in
-  let (_, out) = run_history h parse_mt subject_of main other mts limit p kor other_blobs rst ops in
+  let (_, out) = run_history h parse_mt subject_of main other mts limit skip_gc index_of p kor other_blobs rst ops in
   let bad = ref 0 in
   let parts = List.map (fun (tr, res) ->
     let rs = show_result res in
